@@ -211,7 +211,7 @@ def run(tier="quick", seed=0):
     if bug.ok:
         raise tlc.MachineryError("the buggy reconstructor was not rejected: ReconAgrees is vacuous")
     rng = np.random.default_rng(seed)
-    specs = variant_configs(rng, 36 if thorough else 14)
+    specs = variant_configs(rng, 84 if thorough else 14)
     res = par.pmap(_job, [{"spec": s, "seed": seed * 100 + i} for i, s in enumerate(specs)], workers=14)
     ev = [e for r in res for e in r] + synthetic_events()
     ev.append({"kind": "end", "_m": {"note": "reconstructed-field invariant over all reconstructions"}})
